@@ -28,10 +28,10 @@ func (World) Real(string) []string {
 	return []string{
 		"process/transaction.txProcessor + baseTxProcessor (ProcessTransaction, checkTxValues, processTxFee, processMoveBalance, executingFailedTransaction)",
 		"process/economics.economicsData (CheckValidityTxValues, ComputeTxFee, ComputeMoveBalanceFee, ComputeGasLimit, enable-epoch flags)",
-		"process/block/postprocess.feeHandler (NewFeeAccumulator)",
+		"process/block/postprocess.feeHandler (NewFeeAccumulator, ProcessTransactionFee, RevertFees, CreateBlockStarted, GetAccumulatedFees)",
 		"process/coordinator.txTypeHandler with elrond-vm-common/parsers.CallArgsParser",
 		"data/state.AccountsDB, userAccount, journal entries, account factory, storagePruningManager + evictionWaitingList",
-		"data/trie.patriciaMerkleTrie + trieStorageManager, storage/storageUnit.Unit + lrucache, GogoProtoMarshalizer, blake2b",
+		"data/trie.patriciaMerkleTrie + trieStorageManager, storage/storageUnit.Unit + lrucache, GogoProtoMarshalizer (internal), JsonMarshalizer (tx signing), blake2b",
 		"core/pubkeyConverter.bech32PubkeyConverter, data/transaction.Transaction",
 	}
 }
@@ -44,7 +44,7 @@ func (World) Stub(string) []string {
 		"shard coordinator: process/mock.oneShardCoordinatorMock (one shard)",
 		"epoch notifier: confirms the current epoch on registration and on 'epoch' steps",
 		"built-in function cost handler: process/mock.BuiltInCostHandlerStub",
-		"block processor: the driver (JournalLen before, RevertToSnapshot on every error except ErrFailedTransaction as preprocess/transactions.go does, Commit + CreateBlockStarted, restart from the committed root)",
+		"block processor: the driver (JournalLen before, RevertToSnapshot on every error except ErrFailedTransaction as preprocess/transactions.go does, Commit + CreateBlockStarted, restart from the committed root) and the transaction coordinator's miniblock drop (RevertToSnapshot + RevertFees by hash) and abandoned block attempt (RevertToSnapshot(0) + CreateBlockStarted)",
 		"snapshot DBs of the trie storage manager: MemoryDB (never used)",
 	}
 }
@@ -57,6 +57,11 @@ func (World) Assumptions(string) []string {
 		"left unasserted because the statement does not say which fee enters 'value plus fee': balances in [value+ComputeMoveBalanceFee, value+gasLimit*gasPrice), where the unchanged code succeeds or fails depending on the penalized-too-much-gas / gas-price-modifier flags; balance < ComputeTxFee, wrong nonce and invalid gas are not predicted either (nothing can be charged there; whatever is returned is checked for 'no change')",
 		"a failed-but-charged outcome counts as 'failure for insufficient funds' only if balance < value + gasLimit*gasPrice (the most demanding cost reading); otherwise it is reported as charged-failure-with-sufficient-funds",
 		"a non-existing account is read as balance 0 / nonce 0",
+		"marshalizers as in the node: internal = gogo protobuf, transaction signing = JSON ([TxSignMarshalizer] Type = json); every transaction is identified by the coordinator's hash blake2b(internalMarshalizer.Marshal(tx))",
+		"newBlockAttempt mirrors an abandoned block attempt: AccountsDB.RevertToSnapshot(0) + TransactionFeeHandler.CreateBlockStarted; the unchanged CreateBlockStarted empties the totals and the per-hash map, so the model goes back to the committed balances/nonces with zero fees for the attempt (the fees of the abandoned attempt vanish together with the debits that paid them, the conserved total is the committed one)",
+		"dropLastMiniblock mirrors transactionCoordinator dropping a miniblock: RevertToSnapshot(journal length before the first of the 1-3 most recent executed transactions) + RevertFees(their hashes); the model goes back to that point: balances, nonces and GetAccumulatedFees() must equal their values before those transactions (kind fee-collector-after-dropped-miniblock / changed-outside-its-transactions)",
+		"redo re-submits an earlier transaction object unchanged (same hash), as the next block attempt does; it is judged like any transaction against the current model",
+		"commit+restart also closes the block for the fee handler (fees handed over, CreateBlockStarted), otherwise an abandon after the restart would erase fees whose debits are already committed",
 		"fee collector = fees of closed blocks (read at commit, then CreateBlockStarted) + current accumulator",
 		"get_error arm: a read error fires only inside ProcessTransaction; accounts must be unchanged after the revert exactly as for any rejection; only the fee accumulator is relaxed (it may keep the fee of the aborted transaction), never under the fault-free arm; revert, commit and oracle reads run without faults",
 		"restart happens only right after Commit (no dirty crash); nothing is read right after a restart, the next sweep compares every account with the model (kind changed-outside-its-transactions) and the total (kind conservation)",
@@ -66,7 +71,7 @@ func (World) Assumptions(string) []string {
 
 func (World) Rule(string) string {
 	return "2-4 user accounts (one may not exist yet) plus 0-12 bystander accounts in a committed genesis, balances around multiples of minGasLimit*minGasPrice (0, exactly one fee, +-1, huge); economics drawn per run (min gas price 1/10/1e9, min gas limit 1/500/50000, gas per byte 0/1/1500, modifier 0.01/0.5/1, max gas per block), enable epochs of penalized-too-much-gas / gas-price-modifier / meta-protection / relayed drawn 0-3 and a start epoch, trie level in memory 1-5, storer cache 1-100, four address layouts (one deep: alternating branch/extension nodes so that commits collapse nodes and transactions read the disk); " +
-		"5-40 transactions: value absolute (0, 1, fee-sized, above total supply, too many bytes) or relative to the sender balance (balance - fee +-k for three fee readings, balance + k), gas price min+k / below min / absolute, gas limit required+k / required-1 / at the block limit, data 0-12 bytes, nonce equal / lower / +1 / +7, sender==receiver; up to 25% of the transactions of a run aim at the insufficient-funds window (correct nonce, valid gas, value = balance - fee + k), half of them as self transfers; epoch changes, commit (end of block), commit+restart from the root; " +
+		"5-40 transactions: value absolute (0, 1, fee-sized, above total supply, too many bytes) or relative to the sender balance (balance - fee +-k for three fee readings, balance + k), gas price min+k / below min / absolute, gas limit required+k / required-1 / at the block limit, data 0-12 bytes, nonce equal / lower / +1 / +7, sender==receiver; up to 25% of the transactions of a run aim at the insufficient-funds window (correct nonce, valid gas, value = balance - fee + k), half of them as self transfers; epoch changes, commit (end of block), commit+restart from the root; in 60% of the runs also dropLastMiniblock (1-3 most recent transactions reverted by snapshot and by hash, half of the time re-executed) and newBlockAttempt (everything since the last commit abandoned, the last 1-4 transaction objects executed again, sometimes dropped again); " +
 		"arm get_error fails the n-th (0-3) disk read inside ProcessTransaction on 10-50% of the transactions (that arm commits and restarts more often and keeps 1-3 trie levels in memory, so reads are cold); after every transaction the oracle reads sender and receiver only, every account is swept at the end of each block, before each restart and at the end of the run; " +
 		"non-trivial = at least one successful transfer and at least one charged failure or rejection; distinct = hash of full plan"
 }
